@@ -40,6 +40,10 @@ class FakeBitcoind:
     height = 812
     mempool = ['aa' * 32, 'bb' * 32, 'cc' * 32]
     txs = {'aa' * 32: '01aa', 'cc' * 32: '01cc', 'dd' * 32: '01dd'}
+    # a long vector (more than any batching a caller or the daemon layer might apply): every
+    # transaction different, every third one unknown to the daemon
+    MANY = ['%064x' % (1000 + i) for i in range(130)]
+    txs.update({h: '02%04x' % i for i, h in enumerate(MANY) if i % 3})
 
     def answer(self, req):
         m, p = req['method'], req.get('params', ())
@@ -177,6 +181,7 @@ CALLS = {
     'rawtxs-strict': lambda d: d.getrawtransactions(['aa' * 32, 'cc' * 32, 'dd' * 32],
                                                     replace_errs=False),
     'rawtxs-strict-err': lambda d: d.getrawtransactions(['aa' * 32, 'bb' * 32], replace_errs=False),
+    'rawtxs-many': lambda d: d.getrawtransactions(list(FakeBitcoind.MANY)),
     'rawtx': lambda d: d.getrawtransaction('cc' * 32),
     'rawtx-err': lambda d: d.getrawtransaction('bb' * 32),
     'broadcast': lambda d: d.broadcast_transaction('0100beef'),
@@ -193,6 +198,7 @@ EXPECT = {
     'rawtxs': ('ok', [bytes.fromhex('01aa'), None, bytes.fromhex('01cc'), bytes.fromhex('01dd')]),
     'rawtxs-strict': ('ok', [bytes.fromhex('01aa'), bytes.fromhex('01cc'), bytes.fromhex('01dd')]),
     'rawtxs-strict-err': ('DaemonError', None),
+    'rawtxs-many': ('ok', [bytes.fromhex('02%04x' % i) if i % 3 else None for i in range(130)]),
     'rawtx': ('ok', '01cc'),
     'rawtx-err': ('DaemonError', None),
     'broadcast': ('ok', 'ee' * 32),
@@ -252,6 +258,10 @@ def judge(call, nurls, ladder, faults, r):
         return bad
     if r['outcome'][0] != want_kind or (want_kind == 'ok' and r['outcome'][1] != want_val):
         bad.append(('wrong-result', dict(got=r['outcome'], want=(want_kind, want_val))))
+    if call == 'rawtxs-many':
+        # only the aligned result is demanded of a long vector: how many HTTP requests carry it
+        # is the daemon layer's business
+        return bad
     if len(r['requests']) != nf + 1 or r['leftover']:
         bad.append(('attempts', dict(got=len(r['requests']), want=nf + 1)))
         return bad
